@@ -44,6 +44,10 @@ def ub_subjects(tier, derive_use, miri=False):
             decls += family_F(r, 2, 2, 2)
         for r in ("i8", "u8", "i16", "u64"):
             decls += family_L(r)
+        for r in ("usize", "isize", "i64"):
+            decls += enums.family_P(r)
+        for r in ("i16", "u64"):
+            decls += enums.family_A(r)
         bounds = dict(x1_depth=2, x2_extra=2, x2_cap=6, range_x1_depth=1, range_x2_extra=1)
     else:
         decls = []
@@ -55,6 +59,8 @@ def ub_subjects(tier, derive_use, miri=False):
             decls += family_L(r)
         for r in ("i8", "u16", "i32", "u64"):
             decls += enums.family_R(r) + enums.family_A(r) + enums.family_M(r, 3)
+        for r in ("i32", "u32", "i64", "u64", "i128", "u128", "isize", "usize"):
+            decls += enums.family_P(r)
         # (the 65534-variant enums of family H run natively in C01/C03/C05/C06 thorough: a false unchecked assumption there
         #  aborts the debug build or yields an undeclared discriminant, both of which those checks report)
         bounds = dict(x1_depth=2, x2_extra=2, x2_cap=6, range_x1_depth=1, range_x2_extra=1)
